@@ -326,11 +326,17 @@ static void modeHist(const Case& c)
         // the history on ONE object
         Cfg k0 = tupleCfg(c, blocks[0].first);
         auto s = makeSolver(k0);
+        // optdelta=1: later blocks call only the setters of options whose value changed (the options set earlier must persist);
+        // optdelta=0: every block calls every setter again
+        const bool deltaOnly = c.i("optdelta", 0) != 0;
         int step = 0, bad = -1;
         std::string badWhat, trace;
         for (size_t bi = 0; bi < blocks.size() && bad < 0; bi++) {
             Cfg k = tupleCfg(c, blocks[bi].first);
-            applyOptions(*s, k);
+            if (bi > 0 && deltaOnly)
+                applyOptionsDelta(*s, tupleCfg(c, blocks[bi - 1].first), k);
+            else
+                applyOptions(*s, k);
             if (k.exact) {
                 Problem pe = k.problem();
                 s->setSolution(std::move(pe.exact));
